@@ -58,7 +58,8 @@ StepNames == [
            "rlimit_nofile", "os", "querylog", "statistics", "bind_host", "bind_port",
            "web_session_ttl", "http", "log_file", "log_max_backups", "log_max_size", "log_max_age",
            "log_compress", "log_localtime", "verbose", "log", "debug_pprof", "filtering", "filters",
-           "cl0", "cl1", "cl2", "fl0", "zz_extra", "whitelist_filters"},
+           "cl0", "cl1", "cl2", "fl0", "zz_extra", "whitelist_filters",
+           "@env.workdir", "@env.dnsfilter", "@env.corefile"},
   dns |-> {"bootstrap_dns", "bind_host", "bind_hosts", "autohost_tld", "local_domain_name",
            "upstream_dns", "local_ptr_upstreams", "querylog_interval", "resolve_clients",
            "querylog_enabled", "querylog_file_enabled", "querylog_size_memory",
@@ -230,12 +231,37 @@ MapElems(d, Op(_, _)) ==
 Untracked(d, listCell) == IF listCell.v \in NotAllObj THEN {Ok(d), ErrO} ELSE {Ok(d)}
 
 \* ------------------------------------------------------------------ steps
-S1(d) == {Ok(d)}
+(***************************************************************************)
+(* Environment.  Steps 1 and 2 also delete an obsolete file from the       *)
+(* working directory (dnsfilter.txt, Corefile) and only log a failure.     *)
+(* The state of that part of the file system is carried in three cells     *)
+(* that are not keys of the YAML document: @env.workdir (dir / notdir = a  *)
+(* regular file stands where the directory should be / looplink = a        *)
+(* symlink loop / dangling = a dangling symlink / toolong = a path         *)
+(* component longer than the OS accepts) and, inside a real directory, the *)
+(* state of each legacy file (absent / file / emptydir / nonemptydir /     *)
+(* dangling symlink / selfloop symlink).  Whatever the environment, the    *)
+(* outcome of the step on the DOCUMENT is the same -- no error, and a      *)
+(* panic is not an outcome; the cell records what unlink() leaves behind   *)
+(* (documentation of the mechanism; the harness does not compare it, the   *)
+(* statement does not name the file).                                      *)
+(***************************************************************************)
+EnvKeys   == {"@env.workdir", "@env.dnsfilter", "@env.corefile"}
+WorkDirs  == {"dir", "notdir", "looplink", "dangling", "toolong"}
+FileStates == {"absent", "file", "emptydir", "nonemptydir", "dangling", "selfloop"}
+Unlink(d, fk) ==
+    IF d[fk].t = "absent" THEN d
+    ELSE IF d["@env.workdir"].v = "dir" /\ d[fk].v \in {"file", "emptydir", "dangling", "selfloop"}
+      THEN [d EXCEPT ![fk] = C("env", "absent")]
+    ELSE d      \* not there, not removable, or not reachable: logged, go on
+
+S1(d) == {Ok(Unlink(d, "@env.dnsfilter"))}
 
 \* moveVal[any](diskConf, diskConf, "coredns", "dns").  The children of the
 \* DNS section are named dns.* whichever of the two keys holds them.
-S2(d) == IF d["coredns"].t = "absent" THEN {Ok(d)}
-         ELSE {Ok([d EXCEPT !["dns"] = d["coredns"], !["coredns"] = Absent])}
+S2(d0) == LET d == Unlink(d0, "@env.corefile") IN
+          IF d["coredns"].t = "absent" THEN {Ok(d)}
+          ELSE {Ok([d EXCEPT !["dns"] = d["coredns"], !["coredns"] = Absent])}
 
 S3(d) == WithSec(d, "dns", LAMBDA x :
            {IF w.k = "yes" THEN Ok(Put(x, "dns", "bootstrap_dns", C("list", "wrap:" \o w.c.v))) ELSE Ok(x)
@@ -495,8 +521,8 @@ Step(i, d0) ==
 \* invariant UnconcernedKeysPreserved plays one against the other).
 DnsKeys(ns) == {"dns"} \cup {K("dns", n) : n \in ns}
 Concern == [i \in 1..Last |->
-    CASE i = 1 -> {}
-      [] i = 2 -> {"coredns", "dns"}
+    CASE i = 1 -> {"@env.dnsfilter"}
+      [] i = 2 -> {"coredns", "dns", "@env.corefile"}
       [] i = 3 -> DnsKeys({"bootstrap_dns"})
       [] i = 4 -> {"clients"} \cup ElemKeys \cup ElK({"use_global_blocked_services"})
       [] i = 5 -> {"auth_name", "auth_pass", "users"}
@@ -601,6 +627,7 @@ Placeable(v, k) ==
     /\ \A s \in Secs : k \in ChildMap[s] =>
          IF s = "dns" /\ v < 2 THEN b["coredns"].v = "sec" ELSE b[s].v = "sec"
     /\ (v < 2 => k # "dns")
+    /\ k \notin EnvKeys
 
 \* ({} put where a section lives is a section without children; elsewhere it
 \* is an opaque value that steps may move or wrap.)
@@ -639,7 +666,8 @@ Inside(v, k) ==
 
 ApplyDev(d, v, dev) ==
     LET ins == Inside(v, dev.k) IN
-    [k \in Keys |-> IF k = dev.k THEN DevCell(k, d[k], dev.d) ELSE IF k \in ins THEN Absent ELSE d[k]]
+    [k \in Keys |-> IF k = dev.k THEN (IF k \in EnvKeys THEN C("env", dev.d) ELSE DevCell(k, d[k], dev.d))
+                    ELSE IF k \in ins THEN Absent ELSE d[k]]
 
 RECURSIVE ApplyDevs(_, _, _)
 ApplyDevs(d, v, devs) == IF devs = <<>> THEN d ELSE ApplyDevs(ApplyDev(d, v, Head(devs)), v, Tail(devs))
@@ -776,6 +804,14 @@ PickFam == /\ st = "base" /\ ~Pairs /\ BaseDocs[vec.v]["cl0"].v = "sec"
            /\ \E fs \in FamSeqs : Distinct(fs) /\
                 FinishDoc("fam", vec.v, <<[k |-> "@clients", d |-> FamCode(fs)]>>, FamDoc(vec.v, fs))
 
+\* The environment of the side-effecting steps 0->1 and 1->2 (schema 2 as a
+\* control: no step looks at it any more).
+PickEnv == /\ st = "base" /\ ~Pairs /\ vec.v <= 2
+           /\ \E w \in WorkDirs : \E f1, f2 \in FileStates :
+                /\ (w # "dir" => f1 = "absent" /\ f2 = "absent")
+                /\ Finish("vec", vec.v, <<[k |-> "@env.workdir", d |-> w], [k |-> "@env.dnsfilter", d |-> f1],
+                                           [k |-> "@env.corefile", d |-> f2]>>)
+
 \* "@doc" is not a key: the deviation names the class of the whole file.
 PickDoc == /\ st = "base" /\ ~Pairs
            /\ \E c \in {"stamp"} \cup (IF vec.v = 0 THEN DocClasses ELSE {}) :
@@ -796,7 +832,7 @@ PickPair == /\ st = "key" /\ Pairs
                          Finish("vec", v, <<[k |-> h, d |-> hd], [k |-> k, d |-> kd]>>)
 
 Init == st = "pick" /\ vec = [v |-> 0 - 1]
-Next == PickVer \/ PickKey \/ PickBase \/ PickFam \/ PickDoc \/ PickSingle \/ PickPair
+Next == PickVer \/ PickKey \/ PickBase \/ PickFam \/ PickEnv \/ PickDoc \/ PickSingle \/ PickPair
 Spec == Init /\ [][Next]_vars
 
 \* ----------------------------------------------- properties of the statement
